@@ -35,6 +35,10 @@ for name in args:
            'exits': [{k: e[k] for k in ('cls', 'label', 'trigger', 'atoms', 'full')} for e in ex]}
     ent['order'] = list(getattr(census.compute, 'last_order', []))
     ent['consts'] = dict(getattr(census.compute, 'last_consts', {}))
+    from engine import facts as _facts
+    import re as _re
+    _marks = set(_re.findall(r'…#([0-9a-f]{12})', json.dumps(ent['exits'], ensure_ascii=False)))
+    ent['abbr'] = {d: sorted(_facts.ABBR[d]) for d in sorted(_marks) if d in _facts.ABBR}
     ent['floor'] = len(ex)
     tab[name] = ent
     print('generated', name, len(ex), 'exits; inlined', len(set(inl)))
